@@ -9,7 +9,7 @@ PID = "C12"
 RULE = ("general-position pairs of shapes of all kinds x similarity maps T = translation (up to 1e6) o rotation (exact "
         "rational points of the unit circle, so the transformed data stay rational) o uniform scaling (1e-3 .. 1e5), "
         "applied exactly to the input data: T(A) op T(B) versus T(A op B) for | & - ^ ~, T(p) in T(A), T(B) in T(A), "
-        "areas / s^2; exact stream (Fractions) and a float stream; feature sizes after T are kept >= 1e-2 (below that the "
+        "areas / s^2; exact stream (Fractions) and a float stream; a fine-feature stream (a polygon and its copy shifted by 1e-4..5e-4, translated up to 1e6, exact data); feature sizes after T are kept >= 1e-2 (below that the "
         "absolute tolerances decide: known findings F13 / F19, witnesses only); non-trivial = the boundaries cross and T "
         "is not the identity; distinct = SHA-1")
 PROOF_STATUS = ("Props/C12.v: crossing parameters under every invertible affine map, evaluation, region under translation / "
@@ -27,6 +27,17 @@ def cases(ctx):
         if OC.env_general_position(env) and OC.crossing_count(env) >= 2:
             yield {"env": env, "op": "|&-^"[i % 4], "k": rng.choice([F(1, 1000), F(1, 2000), F(1, 400), F(1)]), "rot": rng.choice(ROTS),
                    "mv": rng.choice(MOVES[:3]), "num": "frac", "shallow": True}
+    # fine features far from the origin: a unit-size polygon and its copy shifted by 1/2000 .. 1/10000 (long edges,
+    # vertices and crossings 1e-4 .. 1e-3 apart), moved up to 1e6 away -- exact data, so nothing may change
+    for i in range(ctx.n(9, 150)):
+        vs = G.ccw(G.star_polygon(rng, n=rng.randint(3, 5), R=6, den=1, center=(0, 0), rmin=0.6))
+        vs = [(p[0] / 6, p[1] / 6) for p in vs]
+        d = F(1, rng.choice([2000, 5000, 10000]))
+        e = (d, d * rng.choice([1, 2, -1]))
+        env = [("S", G.verts_to_jordan(vs)), ("S", G.verts_to_jordan([(p[0] + e[0], p[1] + e[1]) for p in vs]))]
+        if OC.env_general_position(env) and OC.crossing_count(env) >= 2:
+            yield {"env": env, "op": "|&-"[i % 3], "k": F(1), "rot": ROTS[0], "mv": rng.choice(MOVES[3:] + [(F(-10 ** 6), F(10 ** 6))]),
+                   "num": "frac", "fine": True}
     for i in range(ctx.n(30, 700)):
         env = OC.gen_env(rng, 2, R=rng.choice([8, 12]), den=rng.choice([1, 1, 2]))
         if env is None:
